@@ -1,7 +1,631 @@
 package p16
 
-import "verifharness/core"
+import (
+	"encoding/hex"
+	"errors"
+	"strconv"
+	"strings"
 
-func execMore(op string, a []string) (string, bool) { return "", false }
+	"github.com/btcsuite/btcd/address/v2"
+	"github.com/btcsuite/btcd/address/v2/base58"
+	"github.com/btcsuite/btcd/address/v2/bech32"
+	"github.com/btcsuite/btcd/btcec/v2"
+	"github.com/btcsuite/btcd/chaincfg/v2"
+	"github.com/btcsuite/btcd/txscript/v2"
+	"verifharness/core"
+)
 
-func genMore(g *core.Gen) {}
+// ---------------------------------------------------------------- networks / facts
+
+type netT struct {
+	name string
+	p    *chaincfg.Params
+}
+
+func nets() []netT {
+	return []netT{
+		{"mainnet", &chaincfg.MainNetParams}, {"testnet3", &chaincfg.TestNet3Params},
+		{"testnet4", &chaincfg.TestNet4Params}, {"signet", &chaincfg.SigNetParams},
+		{"regtest", &chaincfg.RegressionNetParams}, {"simnet", &chaincfg.SimNetParams},
+	}
+}
+
+func netOf(name string) *chaincfg.Params {
+	for _, n := range nets() {
+		if n.name == name {
+			return n.p
+		}
+	}
+	panic("unknown net " + name)
+}
+
+func bytesI64(b []byte) []int64 {
+	out := make([]int64, len(b))
+	for i, x := range b {
+		out[i] = int64(x)
+	}
+	return out
+}
+
+func (P) Facts() []core.Fact {
+	var fs []core.Fact
+	for i, n := range nets() {
+		k := "net" + strconv.Itoa(i)
+		if n.p.Name != n.name {
+			panic("network order/name drift: " + n.p.Name)
+		}
+		fs = append(fs,
+			core.Fact{Name: k + "_name", Value: n.p.Name},
+			core.Fact{Name: k + "_pkh", Value: int64(n.p.PubKeyHashAddrID)},
+			core.Fact{Name: k + "_sh", Value: int64(n.p.ScriptHashAddrID)},
+			core.Fact{Name: k + "_wif", Value: int64(n.p.PrivateKeyID)},
+			core.Fact{Name: k + "_hrp", Value: bytesI64([]byte(n.p.Bech32HRPSegwit))},
+			core.Fact{Name: k + "_hdPriv", Value: bytesI64(n.p.HDPrivateKeyID[:])},
+			core.Fact{Name: k + "_hdPub", Value: bytesI64(n.p.HDPublicKeyID[:])},
+			// registered for prefix lookups: bech32 prefix known AND Register refuses the net as a duplicate
+			core.Fact{Name: k + "_registered", Value: chaincfg.Register(n.p) == chaincfg.ErrDuplicateNet},
+			core.Fact{Name: k + "_hrpKnown", Value: chaincfg.IsBech32SegwitPrefix(n.p.Bech32HRPSegwit + "1")},
+		)
+	}
+	fs = append(fs,
+		core.Fact{Name: "bech32Const", Value: int64(bech32.Version0Const)},
+		core.Fact{Name: "bech32mConst", Value: int64(bech32.VersionMConst)},
+		core.Fact{Name: "payToAnchorScript", Value: bytesI64(txscript.PayToAnchorScript)},
+		core.Fact{Name: "maxDataCarrierSize", Value: int64(txscript.MaxDataCarrierSize)},
+	)
+	return fs
+}
+
+// ---------------------------------------------------------------- exec
+
+func bechErr(err error) string {
+	var e1 bech32.ErrInvalidLength
+	var e2 bech32.ErrInvalidCharacter
+	var e3 bech32.ErrMixedCase
+	var e4 bech32.ErrInvalidSeparatorIndex
+	var e5 bech32.ErrNonCharsetChar
+	var e6 bech32.ErrInvalidChecksum
+	var e7 bech32.ErrInvalidDataByte
+	var e8 bech32.ErrInvalidBitGroups
+	var e9 bech32.ErrInvalidIncompleteGroup
+	switch {
+	case errors.As(err, &e1):
+		return "err:length"
+	case errors.As(err, &e2):
+		return "err:char"
+	case errors.As(err, &e3):
+		return "err:mixed"
+	case errors.As(err, &e4):
+		return "err:sep"
+	case errors.As(err, &e5):
+		return "err:noncharset"
+	case errors.As(err, &e6):
+		return "err:checksum"
+	case errors.As(err, &e7):
+		return "err:databyte"
+	case errors.As(err, &e8):
+		return "err:bitgroups"
+	case errors.As(err, &e9):
+		return "err:incomplete"
+	}
+	return "err:other"
+}
+
+func ascii(s string) string {
+	if s == "" {
+		return "-"
+	}
+	return s
+}
+
+func kindOf(a address.Address) string {
+	switch a.(type) {
+	case *address.AddressPubKeyHash:
+		return "pkh"
+	case *address.AddressScriptHash:
+		return "sh"
+	case *address.AddressPubKey:
+		return "pk"
+	case *address.AddressWitnessPubKeyHash:
+		return "wpkh"
+	case *address.AddressWitnessScriptHash:
+		return "wsh"
+	case *address.AddressTaproot:
+		return "tr"
+	case *address.AddressPayToAnchor:
+		return "p2a"
+	}
+	return "unknown"
+}
+
+func showAddr(a address.Address) string {
+	script, err := txscript.PayToAddrScript(a)
+	sc := hx(script)
+	if err != nil {
+		sc = "err"
+	}
+	var bits strings.Builder
+	for _, n := range nets() {
+		if a.IsForNet(n.p) {
+			bits.WriteByte('1')
+		} else {
+			bits.WriteByte('0')
+		}
+	}
+	return kindOf(a) + " " + ascii(a.String()) + " " + ascii(a.EncodeAddress()) + " " + sc + " " + bits.String()
+}
+
+func showDec(s string, net *chaincfg.Params) string {
+	a, err := address.DecodeAddress(s, net)
+	if err != nil {
+		var e1 address.UnsupportedWitnessVerError
+		var e2 address.UnsupportedWitnessProgLenError
+		switch {
+		case errors.As(err, &e1):
+			return "err:witver"
+		case errors.As(err, &e2):
+			return "err:proglen"
+		case err == address.ErrChecksumMismatch:
+			return "err:checksum"
+		case err == address.ErrUnknownAddressType:
+			return "err:unknowntype"
+		case err == address.ErrAddressCollision:
+			return "err:collision"
+		}
+		return "err:other"
+	}
+	return "ok " + showAddr(a)
+}
+
+func showXtr(script []byte, net *chaincfg.Params) string {
+	class, addrs, nreq, err := txscript.ExtractPkScriptAddrs(script, net)
+	if err != nil {
+		return "err"
+	}
+	var as []string
+	for _, a := range addrs {
+		as = append(as, ascii(a.String()))
+	}
+	al := "-"
+	if len(as) > 0 {
+		al = strings.Join(as, ",")
+	}
+	return class.String() + " " + txscript.GetScriptClass(script).String() + " " + strconv.Itoa(nreq) + " " + al
+}
+
+func mkAddr(kind string, net *chaincfg.Params, p []byte) (address.Address, error) {
+	switch kind {
+	case "pkh":
+		return address.NewAddressPubKeyHash(p, net)
+	case "sh":
+		return address.NewAddressScriptHashFromHash(p, net)
+	case "pk":
+		return address.NewAddressPubKey(p, net)
+	case "wpkh":
+		return address.NewAddressWitnessPubKeyHash(p, net)
+	case "wsh":
+		return address.NewAddressWitnessScriptHash(p, net)
+	case "tr":
+		return address.NewAddressTaproot(p, net)
+	case "p2a":
+		return address.NewAddressPayToAnchor(net)
+	}
+	return nil, errors.New("kind")
+}
+
+func execMore(op string, a []string) (string, bool) {
+	switch op {
+	case "cb":
+		f, _ := strconv.Atoi(a[0])
+		t, _ := strconv.Atoi(a[1])
+		r, err := bech32.ConvertBits(unhx(a[3]), uint8(f), uint8(t), a[2] == "1")
+		if err != nil {
+			return bechErr(err), true
+		}
+		return "ok " + hx(r), true
+	case "benc":
+		var s string
+		var err error
+		if a[0] == "m" {
+			s, err = bech32.EncodeM(string(unhx(a[1])), unhx(a[2]))
+		} else {
+			s, err = bech32.Encode(string(unhx(a[1])), unhx(a[2]))
+		}
+		if err != nil {
+			return bechErr(err), true
+		}
+		return "ok " + hx([]byte(s)), true
+	case "bdec":
+		hrp, data, ver, err := bech32.DecodeGeneric(string(unhx(a[0])))
+		if err != nil {
+			return bechErr(err), true
+		}
+		v := "?"
+		switch ver {
+		case bech32.Version0:
+			v = "0"
+		case bech32.VersionM:
+			v = "m"
+		}
+		return "ok " + hx([]byte(hrp)) + " " + hx(data) + " " + v, true
+	case "dec":
+		return showDec(string(unhx(a[1])), netOf(a[0])), true
+	case "xtr":
+		return showXtr(unhx(a[1]), netOf(a[0])), true
+	case "enc":
+		net := netOf(a[1])
+		ad, err := mkAddr(a[0], net, unhx(a[2]))
+		if err != nil {
+			return "err", true
+		}
+		script, _ := txscript.PayToAddrScript(ad)
+		return "ok " + showAddr(ad) + " | " + showXtr(script, net) + " | " + showDec(ad.String(), net), true
+	}
+	return execKeys(op, a)
+}
+
+// ---------------------------------------------------------------- generators
+
+const bechCharset = "qpzry9x8gf2tvdw0s3jn54khce6mua7l"
+
+func rand5(r *core.Rand, n int) []byte {
+	b := make([]byte, n)
+	for i := range b {
+		b[i] = byte(r.Intn(32))
+	}
+	return b
+}
+
+func randHrp(r *core.Rand) string {
+	switch r.Intn(8) {
+	case 0:
+		return "bc"
+	case 1:
+		return "tb"
+	case 2:
+		return "bcrt"
+	case 3:
+		return "sb"
+	}
+	n := 1 + r.Intn(10)
+	b := make([]byte, n)
+	for i := range b {
+		c := byte(33 + r.Intn(94))
+		if c >= 'A' && c <= 'Z' {
+			c += 32
+		}
+		b[i] = c
+	}
+	return string(b)
+}
+
+func upper(s []byte) []byte { return []byte(strings.ToUpper(string(s))) }
+
+// pubkeys in every format for a few scalars
+func pubKeys(r *core.Rand) [][]byte {
+	var out [][]byte
+	sc := r.Bytes(32)
+	sc[0] &= 0x7f
+	priv, pub := btcec.PrivKeyFromBytes(sc)
+	_ = priv
+	c := pub.SerializeCompressed()
+	u := pub.SerializeUncompressed()
+	h := append([]byte{}, u...)
+	h[0] = 0x06 | (u[64] & 1)
+	out = append(out, c, u, h)
+	return out
+}
+
+func segwitString(r *core.Rand, hrp string, ver byte, prog []byte, m bool) []byte {
+	conv, _ := bech32.ConvertBits(prog, 8, 5, true)
+	data := append([]byte{ver}, conv...)
+	var s string
+	if m {
+		s, _ = bech32.EncodeM(hrp, data)
+	} else {
+		s, _ = bech32.Encode(hrp, data)
+	}
+	return []byte(s)
+}
+
+func genBech(g *core.Gen) {
+	r := g.R
+	// ConvertBits: every width pair, both pad modes; 8->5 and 5->8 at every length 0..70
+	for f := 0; f <= 9; f++ {
+		for t := 0; t <= 9; t++ {
+			for k := 0; k < g.N(2, 12); k++ {
+				d := r.Bytes(r.Intn(12))
+				for _, pad := range []string{"0", "1"} {
+					g.Case("cb-any", len(d) > 0, "C16 cb "+strconv.Itoa(f)+" "+strconv.Itoa(t)+" "+pad+" "+hx(d))
+				}
+			}
+		}
+	}
+	for n := 0; n <= 70; n++ {
+		d := r.Bytes(n)
+		g.Case("cb-8to5", n > 0, "C16 cb 8 5 1 "+hx(d))
+		g.Case("cb-8to5", n > 0, "C16 cb 8 5 0 "+hx(d))
+		c, _ := bech32.ConvertBits(d, 8, 5, true)
+		g.Case("cb-5to8", n > 0, "C16 cb 5 8 0 "+hx(c))
+		g.Case("cb-5to8", n > 0, "C16 cb 5 8 1 "+hx(c))
+		if len(c) > 0 { // non-zero padding bits, or a spare group
+			c2 := append([]byte{}, c...)
+			c2[len(c2)-1] |= 1
+			g.Case("cb-5to8-badpad", true, "C16 cb 5 8 0 "+hx(c2))
+			g.Case("cb-5to8-badpad", true, "C16 cb 5 8 0 "+hx(append(c2, 0)))
+			g.Case("cb-5to8-badpad", true, "C16 cb 5 8 0 "+hx(append(append([]byte{}, c...), 0)))
+		}
+		x := rand5(r, n)
+		g.Case("cb-5to8-rand", n > 0, "C16 cb 5 8 0 "+hx(x))
+	}
+	// bech32 encode / decode
+	for k := 0; k < g.N(400, 6000); k++ {
+		hrp := randHrp(r)
+		n := r.Intn(70)
+		if r.Chance(1, 6) { // around the 90-char limit
+			n = 90 - len(hrp) - 7 + r.Intn(3) - 1
+		}
+		d := rand5(r, n)
+		ver := []string{"0", "m"}[r.Intn(2)]
+		if r.Chance(1, 20) && n > 0 {
+			d[r.Intn(n)] = byte(32 + r.Intn(224))
+		}
+		h := hrp
+		if r.Chance(1, 8) {
+			h = strings.ToUpper(hrp)
+		}
+		g.Case("benc", true, "C16 benc "+ver+" "+hx([]byte(h))+" "+hx(d))
+		var s string
+		var err error
+		if ver == "m" {
+			s, err = bech32.EncodeM(hrp, d)
+		} else {
+			s, err = bech32.Encode(hrp, d)
+		}
+		if err != nil {
+			continue
+		}
+		g.Case("bdec-valid", true, "C16 bdec "+hx([]byte(s)))
+		g.Case("bdec-upper", true, "C16 bdec "+hx(upper([]byte(s))))
+		m := []byte(s)
+		if len(m) > 0 { // mixed case: upper-case one letter
+			for tries := 0; tries < 20; tries++ {
+				p := r.Intn(len(m))
+				if m[p] >= 'a' && m[p] <= 'z' {
+					m[p] -= 32
+					break
+				}
+			}
+			g.Case("bdec-mixed", true, "C16 bdec "+hx(m))
+		}
+		g.Case("bdec-mut", true, "C16 bdec "+hx(mutate(r, []byte(s), 1+r.Intn(4), bechCharset+"1b")))
+		if r.Chance(1, 10) {
+			t := []byte(s)
+			t[r.Intn(len(t))] = byte(r.Intn(256))
+			g.Case("bdec-anybyte", true, "C16 bdec "+hx(t))
+		}
+	}
+	for _, s := range []string{"", "1", "a1", "1qqqqqq", "a1qqqqqq", "11qqqqqq", "a1qqqqq", "a12uel5l", "A12UEL5L", "a1lqfn3a", "abcdef1qpzry9x8gf2tvdw0s3jn54khce6mua7lmqqqxw"} {
+		g.Case("bdec-fixed", true, "C16 bdec "+hx([]byte(s)))
+	}
+}
+
+func genAddr(g *core.Gen) {
+	r := g.R
+	ns := nets()
+	// constructors: every kind x every network x legal and illegal payload lengths
+	for _, n := range ns {
+		for _, kind := range []string{"pkh", "sh", "wpkh", "wsh", "tr"} {
+			for _, l := range []int{0, 19, 20, 21, 31, 32, 33} {
+				for k := 0; k < g.N(2, 20); k++ {
+					p := r.Bytes(l)
+					if k == 0 && l > 0 {
+						p = make([]byte, l) // all zero: leading '1's in base58
+					}
+					g.Case("enc-"+kind, l == 20 || l == 32, "C16 enc "+kind+" "+n.name+" "+hx(p))
+				}
+			}
+		}
+		g.Case("enc-p2a", true, "C16 enc p2a "+n.name+" -")
+		for k := 0; k < g.N(3, 30); k++ {
+			for _, pk := range pubKeys(r) {
+				g.Case("enc-pk", true, "C16 enc pk "+n.name+" "+hx(pk))
+				bad := append([]byte{}, pk...)
+				switch r.Intn(4) {
+				case 0:
+					bad[1+r.Intn(len(bad)-1)] ^= byte(1 << r.Intn(8))
+				case 1:
+					bad[0] ^= 1 // wrong parity tag / 04<->05
+				case 2:
+					bad = bad[:len(bad)-1]
+				case 3:
+					bad[0] = byte(r.Intn(256))
+				}
+				g.Case("enc-pk-bad", true, "C16 enc pk "+n.name+" "+hx(bad))
+				// as DecodeAddress input: hex string in either case
+				hs := hex.EncodeToString(pk)
+				if r.Bool() {
+					hs = strings.ToUpper(hs)
+				}
+				g.Case("dec-pkhex", true, "C16 dec "+n.name+" "+hx([]byte(hs)))
+				g.Case("dec-pkhex-bad", true, "C16 dec "+n.name+" "+hx([]byte(hex.EncodeToString(bad))))
+			}
+		}
+	}
+	// decode: every version 0..17 x program lengths x both checksum variants x every hrp, on every default net
+	hrps := []string{"bc", "tb", "bcrt", "sb", "BC", "TB", "xy", "b", "bc1", "tb1tb", "ltc"}
+	for ver := 0; ver <= 17; ver++ {
+		for _, l := range []int{0, 1, 2, 3, 16, 19, 20, 21, 31, 32, 33, 39, 40, 41} {
+			for _, m := range []bool{false, true} {
+				for k := 0; k < g.N(1, 6); k++ {
+					hrp := hrps[r.Intn(len(hrps))]
+					if k == 0 {
+						hrp = []string{"bc", "tb", "bcrt", "sb"}[r.Intn(4)]
+					}
+					prog := r.Bytes(l)
+					if l == 2 && r.Bool() {
+						prog = []byte{0x4e, 0x73}
+					}
+					s := segwitString(r, hrp, byte(ver), prog, m)
+					net := ns[r.Intn(len(ns))]
+					g.Case("dec-segwit", true, "C16 dec "+net.name+" "+hx(s))
+					if r.Chance(1, 3) {
+						g.Case("dec-segwit-upper", true, "C16 dec "+net.name+" "+hx(upper(s)))
+					}
+					if r.Chance(1, 3) {
+						g.Case("dec-segwit-mut", true, "C16 dec "+net.name+" "+hx(mutate(r, s, 1+r.Intn(4), bechCharset+"1b")))
+					}
+				}
+			}
+		}
+	}
+	// padding violations inside otherwise valid segwit strings
+	for k := 0; k < g.N(60, 1000); k++ {
+		hrp := []string{"bc", "tb", "bcrt", "sb"}[r.Intn(4)]
+		ver := byte(r.Intn(2))
+		prog := r.Bytes([]int{20, 32}[r.Intn(2)])
+		conv, _ := bech32.ConvertBits(prog, 8, 5, true)
+		switch r.Intn(3) {
+		case 0:
+			conv[len(conv)-1] |= 1
+		case 1:
+			conv = append(conv, 0)
+		case 2:
+			conv = append(conv, byte(r.Intn(32)), byte(r.Intn(32)))
+		}
+		data := append([]byte{ver}, conv...)
+		var s string
+		if ver == 0 {
+			s, _ = bech32.Encode(hrp, data)
+		} else {
+			s, _ = bech32.EncodeM(hrp, data)
+		}
+		g.Case("dec-segwit-pad", true, "C16 dec "+ns[r.Intn(len(ns))].name+" "+hx([]byte(s)))
+	}
+	// base58 addresses: every netID byte against every default net; wrong lengths; edit distance 1..4
+	for id := 0; id < 256; id++ {
+		h := r.Bytes(20)
+		s := []byte(base58.CheckEncode(h, byte(id)))
+		for _, n := range ns {
+			relevant := byte(id) == n.p.PubKeyHashAddrID || byte(id) == n.p.ScriptHashAddrID
+			if relevant || r.Chance(1, 6) {
+				g.Case("dec-b58-netid", relevant, "C16 dec "+n.name+" "+hx(s))
+			}
+		}
+	}
+	for k := 0; k < g.N(300, 6000); k++ {
+		n := ns[r.Intn(len(ns))]
+		id := []byte{n.p.PubKeyHashAddrID, n.p.ScriptHashAddrID}[r.Intn(2)]
+		l := 20
+		if r.Chance(1, 5) {
+			l = []int{0, 1, 19, 21, 32}[r.Intn(5)]
+		}
+		h := r.Bytes(l)
+		if r.Chance(1, 6) && l > 0 {
+			h[0] = 0
+		}
+		s := []byte(base58.CheckEncode(h, id))
+		g.Case("dec-b58", l == 20, "C16 dec "+n.name+" "+hx(s))
+		g.Case("dec-b58-mut", true, "C16 dec "+n.name+" "+hx(mutate(r, s, 1+r.Intn(4), b58alpha)))
+		other := ns[r.Intn(len(ns))]
+		g.Case("dec-b58-othernet", true, "C16 dec "+other.name+" "+hx(s))
+	}
+	for _, s := range []string{"", "1", "bc1", "tb1", "bc1q", "1111111111111111111114oLvT2", "3", strings.Repeat("0", 66), strings.Repeat("g", 66), strings.Repeat("1", 130)} {
+		g.Case("dec-fixed", true, "C16 dec mainnet "+hx([]byte(s)))
+	}
+}
+
+func push(b []byte) []byte {
+	switch {
+	case len(b) <= 75:
+		return append([]byte{byte(len(b))}, b...)
+	case len(b) <= 255:
+		return append([]byte{0x4c, byte(len(b))}, b...)
+	}
+	return append([]byte{0x4d, byte(len(b)), byte(len(b) >> 8)}, b...)
+}
+
+func genScripts(g *core.Gen) {
+	r := g.R
+	ns := nets()
+	tmpl := func() []byte {
+		switch r.Intn(12) {
+		case 0:
+			return append(append([]byte{0x76, 0xa9, 0x14}, r.Bytes(20)...), 0x88, 0xac)
+		case 1:
+			return append(append([]byte{0xa9, 0x14}, r.Bytes(20)...), 0x87)
+		case 2:
+			pk := pubKeys(r)[r.Intn(3)]
+			return append(push(pk), 0xac)
+		case 3:
+			return append([]byte{0x00, 0x14}, r.Bytes(20)...)
+		case 4:
+			return append([]byte{0x00, 0x20}, r.Bytes(32)...)
+		case 5:
+			return append([]byte{0x51, 0x20}, r.Bytes(32)...)
+		case 6:
+			return []byte{0x51, 0x02, 0x4e, 0x73}
+		case 7: // multisig m-of-n with mixed key formats and a few junk keys
+			n := 1 + r.Intn(4)
+			m := 1 + r.Intn(n)
+			s := []byte{byte(0x50 + m)}
+			for i := 0; i < n; i++ {
+				pk := pubKeys(r)[r.Intn(3)]
+				if r.Chance(1, 6) {
+					pk = r.Bytes([]int{33, 65, 32, 1}[r.Intn(4)])
+				}
+				s = append(s, push(pk)...)
+			}
+			cnt := n
+			if r.Chance(1, 8) {
+				cnt = n + 1
+			}
+			return append(s, byte(0x50+cnt), 0xae)
+		case 8: // null data
+			d := r.Bytes([]int{0, 1, 20, 75, 76, 80, 81}[r.Intn(7)])
+			if r.Chance(1, 6) {
+				return []byte{0x6a}
+			}
+			if r.Chance(1, 6) {
+				return []byte{0x6a, byte(0x51 + r.Intn(16))}
+			}
+			return append([]byte{0x6a}, push(d)...)
+		case 9: // witness program of another version / length
+			l := 2 + r.Intn(39)
+			return append([]byte{byte(0x50 + r.Intn(17)), byte(l)}, r.Bytes(l)...)
+		case 10: // witness template whose last byte is OP_CHECKMULTISIG / looks like other templates
+			s := append([]byte{[]byte{0x00, 0x51}[r.Intn(2)], 0x20}, r.Bytes(32)...)
+			s[33] = 0xae
+			return s
+		}
+		return r.Bytes(r.Intn(40))
+	}
+	for k := 0; k < g.N(1200, 20000); k++ {
+		s := tmpl()
+		n := ns[r.Intn(len(ns))]
+		g.Case("xtr-template", true, "C16 xtr "+n.name+" "+hx(s))
+		if r.Chance(1, 2) { // near misses: flip / truncate / extend
+			t := append([]byte{}, s...)
+			switch r.Intn(3) {
+			case 0:
+				if len(t) > 0 {
+					t[r.Intn(len(t))] ^= byte(1 << r.Intn(8))
+				}
+			case 1:
+				if len(t) > 0 {
+					t = t[:len(t)-1]
+				}
+			case 2:
+				t = append(t, byte(r.Intn(256)))
+			}
+			g.Case("xtr-nearmiss", len(t) > 0, "C16 xtr "+n.name+" "+hx(t))
+		}
+	}
+}
+
+func genMore(g *core.Gen) {
+	genBech(g)
+	genAddr(g)
+	genScripts(g)
+	genKeys(g)
+}
